@@ -4,7 +4,7 @@
    Model: coq/model/Calculus.v (run_op, grad_v, div_v, curl_v, lap_v over Diff.diff_nd = C04's operator). *)
 From Coq Require Import Qcanon.
 From DF Require Import Prelude FieldK NDArray Diff Calculus C04_proofs
-     C05_stencil C05_identities C05_exact C05_refuse.
+     C05_stencil C05_identities C05_exact C05_refuse Rotate90 C05_mirror C05_rot C05_commute.
 
 (* ===== textbook combinations; components paired with axes through the mapping ===== *)
 
@@ -75,7 +75,7 @@ Theorem C05_reversed_mapping_names_component_of_axis : forall vs m dims r,
   rev_comps (Some vs) m dims = OK r ->
   length r = length dims /\
   forall a, (a < length dims)%nat ->
-    exists v, rlookup (nth a dims ""%string) m = Some v /\ index_of v vs = Some (nth a r 0%nat).
+    exists v, Calculus.rlookup (nth a dims ""%string) m = Some v /\ index_of v vs = Some (nth a r 0%nat).
 Proof. exact rev_comps_spec. Qed.
 Print Assumptions C05_reversed_mapping_names_component_of_axis.
 
@@ -221,6 +221,115 @@ Proof.
   intros [|[|[|a]]] Ha; cbv in Ha |- *; lia.
 Qed.
 
+
+(* ===== commutation with quarter-turn rotations of the field =====
+   Field.rotate90 (model: Rotate90.field_rotate90) = numpy.rot90 on the data (shape n ++ [nvdim]) and on
+   the validity (shape n), the two components that the reversed mapping assigns to the two axes rotated
+   by the exact quarter turn kturn k (Rotate90.rot_comp), mesh with the cell counts and cell sizes of the
+   two axes exchanged for odd k (rotM; the boundary-condition string is NOT rotated by Mesh.rotate90, hence
+   the hypothesis in rot_ok that for odd k the two axes are both periodic or both open).
+   All statements: any number of dimensions, any numbers of cells, ARBITRARY validity masks, open and
+   periodic directions, every integer k. *)
+
+(* mirror symmetry of the stencil set (uses the symmetry of the coefficient tuples read from the source) *)
+Theorem C05_stencil_mirror_run : forall (K : FOps), FLaws K ->
+  forall order (a : list K) h, (order = 1 \/ order = 2)%nat ->
+  d_run K order (rev a) h = map (msign K order) (rev (d_run K order a h)).
+Proof. exact d_run_rev. Qed.
+Print Assumptions C05_stencil_mirror_run.
+
+Theorem C05_stencil_mirror_line : forall (K : FOps), FLaws K ->
+  forall order h per (vals : list K) valid, (order = 1 \/ order = 2)%nat -> length vals = length valid ->
+  diff_line K order h per true (rev vals) (rev valid)
+  = map (msign K order) (rev (diff_line K order h per true vals valid)).
+Proof. exact diff_line_rev. Qed.
+Print Assumptions C05_stencil_mirror_line.
+
+(* the derivative along axis x of the rotated array at target cell q = (signed) derivative of the source
+   array along the source axis at the source cell rho q *)
+Theorem C05_derivative_of_rotated_field : forall (K : FOps), FLaws K ->
+  forall (M : cmesh K) a b k x order g valid (q : idx),
+  rot_ok K M a b k q -> (x < cm_nd M)%nat -> (order = 1 \/ order = 2)%nat ->
+  dax K (rotM K M a b k) order x
+      (rot90 (cm_sh M ++ [1%nat]) a b k g) (rot90 (cm_sh M) a b k valid) (q ++ [0%nat])
+  = msgn K (rot_fl a b k x) order
+      (dax K M order (src_ax a b k x) g valid (rho (cm_sh M) a b k q ++ [0%nat])).
+Proof. exact dax_rot90_cell. Qed.
+Print Assumptions C05_derivative_of_rotated_field.
+
+Theorem C05_derivative_linear_in_data : forall (K : FOps), FLaws K ->
+  forall (M : cmesh K) order x a' b' g g' valid (p : idx),
+  (x < cm_nd M)%nat -> (nth x p 0 < nth x (cm_sh M) 0)%nat ->
+  dax K M order x (fun i => fadd (fmul a' (g i)) (fmul b' (g' i))) valid p
+  = fadd (fmul a' (dax K M order x g valid p)) (fmul b' (dax K M order x g' valid p)).
+Proof. exact dax_lin. Qed.
+Print Assumptions C05_derivative_linear_in_data.
+
+(* grad (rotate90 f) = rotate90 (grad f): the gradient's components are mapped identically onto the axes,
+   so Field.rotate90 rotates its components a and b *)
+Theorem C05_rot90_commute_grad : forall (K : FOps), FLaws K ->
+  forall (M : cmesh K) a b k f valid (q : idx) x,
+  rot_ok K M a b k q -> (x < cm_nd M)%nat ->
+  grad_v K (rotM K M a b k) (rot90 (cm_sh M ++ [1%nat]) a b k f) (rot90 (cm_sh M) a b k valid) (q ++ [x])
+  = rot_comp K (fst (kturn K k)) (snd (kturn K k)) a b
+      (rot90 (cm_sh M ++ [cm_nd M]) a b k (grad_v K M f valid)) (q ++ [x]).
+Proof. exact grad_rot90. Qed.
+Print Assumptions C05_rot90_commute_grad.
+
+(* laplace (rotate90 f) = rotate90 (laplace f) for scalar fields (nv = 1, c = 0), and component by
+   component for arrays whose components are not mixed *)
+Theorem C05_rot90_commute_laplace_scalar : forall (K : FOps), FLaws K ->
+  forall (M : cmesh K) a b k nv v valid (q : idx) c,
+  rot_ok K M a b k q ->
+  lap_v K (rotM K M a b k) (rot90 (cm_sh M ++ [nv]) a b k v) (rot90 (cm_sh M) a b k valid) (q ++ [c])
+  = rot90 (cm_sh M ++ [nv]) a b k (lap_v K M v valid) (q ++ [c]).
+Proof. exact lap_rot90_unmixed. Qed.
+Print Assumptions C05_rot90_commute_laplace_scalar.
+
+(* vector fields: v1, v2 = the components Field.rotate90 finds through the reversed mapping for the two
+   axes; the Laplacian keeps labels and mapping, so its result is rotated with the same v1, v2 *)
+Theorem C05_rot90_commute_laplace_vector : forall (K : FOps), FLaws K ->
+  forall (M : cmesh K) a b k nv v valid (q : idx) c s v1 v2 ci,
+  rot_ok K M a b k q ->
+  lap_v K (rotM K M a b k) (rot_comp K c s v1 v2 (rot90 (cm_sh M ++ [nv]) a b k v))
+        (rot90 (cm_sh M) a b k valid) (q ++ [ci])
+  = rot_comp K c s v1 v2 (rot90 (cm_sh M ++ [nv]) a b k (lap_v K M v valid)) (q ++ [ci]).
+Proof. exact lap_rot90_vector. Qed.
+Print Assumptions C05_rot90_commute_laplace_vector.
+
+(* div (rotate90 v) = rotate90 (div v): axes c = axis component c is mapped to (the rotated field keeps
+   labels and mapping, the rotated mesh keeps its dimension names, so the same list applies on both
+   sides); v1, v2 = the components mapped to a and b, all other components mapped to other axes --
+   i.e. any injective mapping, in any number of dimensions *)
+Theorem C05_rot90_commute_div : forall (K : FOps), FLaws K ->
+  forall (M : cmesh K) a b k nv v valid (q : idx) axes v1 v2 z,
+  rot_ok K M a b k q -> v1 <> v2 -> (v1 < length axes)%nat -> (v2 < length axes)%nat ->
+  nth v1 axes 0%nat = a -> nth v2 axes 0%nat = b ->
+  (forall ci, (ci < length axes)%nat -> (nth ci axes 0 < cm_nd M)%nat) ->
+  (forall ci, (ci < length axes)%nat -> ci <> v1 -> ci <> v2 -> nth ci axes 0%nat <> a /\ nth ci axes 0%nat <> b) ->
+  div_v K (rotM K M a b k) axes
+        (rot_comp K (fst (kturn K k)) (snd (kturn K k)) v1 v2 (rot90 (cm_sh M ++ [nv]) a b k v))
+        (rot90 (cm_sh M) a b k valid) (q ++ [z])
+  = rot90 (cm_sh M ++ [1%nat]) a b k (div_v K M axes v valid) (q ++ [z]).
+Proof. exact div_rot90. Qed.
+Print Assumptions C05_rot90_commute_div.
+
+Example C05_rot90_commute_div_nonvacuous :
+  let axes := [1; 2; 0]%nat in
+  nth 2 axes 0%nat = 0%nat /\ nth 1 axes 0%nat = 2%nat /\
+  (forall ci, (ci < 3)%nat -> (nth ci axes 0 < 3)%nat) /\
+  (forall ci, (ci < 3)%nat -> ci <> 2%nat -> ci <> 1%nat -> nth ci axes 0%nat <> 0%nat /\ nth ci axes 0%nat <> 2%nat).
+Proof.
+  cbv zeta. repeat split; try reflexivity;
+    try (intros [|[|[|ci]]] H; simpl; lia); try (destruct ci as [|[|[|ci]]]; simpl; lia).
+Qed.
+
+Example C05_rot90_commute_nonvacuous : rot_ok QcOps C05_demo_mesh 0 2 1 [2; 3; 1]%nat.
+Proof.
+  split; try reflexivity; try discriminate; try (cbv; lia).
+  split; [reflexivity|]. intros [|[|[|t]]] Ht; cbv in Ht |- *; lia.
+Qed.
+
 (* ===== refusals ===== *)
 Theorem C05_grad_refuses_non_scalar : forall (K : FOps) (M : cmesh K) dims vmap (f : idx -> K) valid nv vdims,
   nv <> 1%nat -> run_op K OGrad M dims nv vdims vmap f valid = Err ValueE.
@@ -249,7 +358,7 @@ Proof. exact curl_refuses_unmapped. Qed.
 Print Assumptions C05_curl_refuses_unmapped_component.
 
 Theorem C05_curl_refuses_axis_without_component : forall (K : FOps) (M : cmesh K) dims vmap (f : idx -> K) valid nv vs d,
-  In d dims -> rlookup d vmap = None -> is_err (run_op K OCurl M dims nv (Some vs) vmap f valid).
+  In d dims -> Calculus.rlookup d vmap = None -> is_err (run_op K OCurl M dims nv (Some vs) vmap f valid).
 Proof. exact curl_refuses_uncovered_axis. Qed.
 Print Assumptions C05_curl_refuses_axis_without_component.
 
@@ -261,7 +370,7 @@ Print Assumptions C05_div_curl_refuse_unlabelled.
 Example C05_refusals_nonvacuous :
   unmapped ["a"; "b"; "c"]%string [("p", "b"); ("q", "nope"); ("s", "a")]%string "q"%string /\
   unmapped ["a"; "b"; "c"]%string [("p", "b"); ("s", "a")]%string "q"%string /\
-  rlookup "c"%string [("p", "b"); ("q", "b"); ("s", "a")]%string = None.
+  Calculus.rlookup "c"%string [("p", "b"); ("q", "b"); ("s", "a")]%string = None.
 Proof.
   split; [right; exists "nope"%string; split; reflexivity|]. split; [left; reflexivity | reflexivity].
 Qed.
